@@ -36,6 +36,20 @@ def lin(t, SIZE):
     return None
 
 
+def _size_local(fn, t, SIZE, depth=0):
+    """`const size_t n_segments = segments.size();`: a never re-assigned local that holds size() + c stands for it"""
+    if isinstance(t, tuple):
+        if t and t[0] == 'local' and len(t) == 3 and depth < 4:
+            init = fn.single_def(t[2])
+            if init:
+                L = lin(fn.term(init, inline=False), SIZE)
+                if L and L[0] == 'SIZE':
+                    return ('op', '+', SIZE, ('lit', L[1])) if L[1] else SIZE
+            return t
+        return tuple(_size_local(fn, x, SIZE, depth + 1) for x in t)
+    return t
+
+
 def edge_bounds(fn, c, label, SIZE):
     """[(var term, c)]: facts `var <= size() + c` implied by condition node c evaluating to `label`; second result: whether a
     comparison between a variable and size() was met in a shape that is not understood"""
@@ -54,7 +68,9 @@ def edge_bounds(fn, c, label, SIZE):
         return out, unknown
     t = _sc(fn.term(c, inline=False))
     if t[0] == 'op' and len(t) == 4 and t[1] in _FLIP:
-        l, r, rel = lin(t[2], SIZE), lin(t[3], SIZE), t[1]
+        l, r, rel = lin(t[2], SIZE), lin(_size_local(fn, t[3], SIZE), SIZE), t[1]
+        if l and l[0] != 'SIZE' and lin(_size_local(fn, t[2], SIZE), SIZE) and lin(_size_local(fn, t[2], SIZE), SIZE)[0] == 'SIZE':
+            l = lin(_size_local(fn, t[2], SIZE), SIZE)
         mentions = SIZE in (list(_subs(t)))
         if l and r:
             if l[0] == 'SIZE':
